@@ -110,6 +110,8 @@ func (c *Cell) clone() *Cell {
 
 type dryInfo struct {
 	keys map[string]bool
+	loop *loopInfo
+	fr   *ssa.Function
 }
 
 // Ctx is the per-function verification context.
@@ -534,7 +536,8 @@ func (st *State) factsOf(v Val) []Term {
 		case "len":
 			out = append(out, And(Le(I(0), x), Le(x, v.L[i+1])))
 		case "cap":
-			out = append(out, Le(x, I(1<<62)))
+			// an existing object occupies at most 2^46 bytes (a quarter of what the allocator can address)
+			out = append(out, Le(x, I(maxElems(v.T, l.Path)/4)))
 		case "ityp":
 			out = append(out, Le(I(0), x))
 		case "count", "readers":
@@ -542,6 +545,54 @@ func (st *State) factsOf(v Val) []Term {
 		}
 	}
 	return out
+}
+
+var stdSizes = types.SizesFor("gc", "amd64")
+
+const maxAlloc = 1 << 48 // runtime.maxAlloc on linux/amd64
+
+// maxElems bounds the capacity of a slice by what the allocator can provide.
+func maxElems(t types.Type, capPath string) int64 {
+	// find the slice type whose cap leaf this is
+	var find func(t types.Type, path string) types.Type
+	find = func(t types.Type, path string) types.Type {
+		if path == "cap" {
+			return t
+		}
+		st, ok := t.Underlying().(*types.Struct)
+		if !ok {
+			return nil
+		}
+		for i := 0; i < st.NumFields(); i++ {
+			f := st.Field(i)
+			if strings.HasPrefix(path, f.Name()+".") {
+				return find(f.Type(), path[len(f.Name())+1:])
+			}
+		}
+		return nil
+	}
+	st := find(t, capPath)
+	if st == nil {
+		return maxAlloc
+	}
+	return maxElemsOf(st)
+}
+
+func maxElemsOf(sliceT types.Type) (n int64) {
+	defer func() {
+		if recover() != nil {
+			n = maxAlloc
+		}
+	}()
+	sl, ok := sliceT.Underlying().(*types.Slice)
+	if !ok {
+		return maxAlloc
+	}
+	sz := stdSizes.Sizeof(sl.Elem())
+	if sz <= 0 {
+		return 1 << 62
+	}
+	return maxAlloc / sz
 }
 
 // freshVal creates an unconstrained value of type t (with type invariants).
